@@ -53,7 +53,7 @@ HDRH=$(sha256sum "$REPO/src/TinyJAMBU.h" | cut -c1-12)   # the harness includes 
 H="$B/h/$SIMH-$HDRH/$HARN_KIND"
 if [ ! -f "$H/ok" ]; then
   rm -rf "$H"; mkdir -p "$H"
-  if [ "$HARN_KIND" = asan ]; then HCXX="clang++ -O1 -g -fsanitize=address,undefined -fno-sanitize=nonnull-attribute -fno-sanitize-recover=all -fno-omit-frame-pointer"; HCC="clang -O1 -g -fsanitize=address,undefined -fno-sanitize=nonnull-attribute -fno-sanitize-recover=all"
+  if [ "$HARN_KIND" = asan ]; then HCXX="clang++ -O1 -g -fsanitize=address -fno-omit-frame-pointer"; HCC="clang -O1 -g -fsanitize=address"
   else HCXX="g++ -O2 -g"; HCC="gcc -O2 -g"; fi
   pids=()
   for f in core engine gen run main; do
@@ -73,7 +73,7 @@ if [ ! -x "$OUT" ]; then
   case "$VARIANT" in
     prod) ;;
     hook) FLAGS="$(strip_O "$FLAGS") -O2 -DTINYJAMBU_VERIF";;
-    san)  CC=clang; FLAGS="$(strip_O "$FLAGS") -O1 -g -fno-omit-frame-pointer -fsanitize=address,undefined -fno-sanitize=nonnull-attribute -fno-sanitize-recover=all -DTINYJAMBU_VERIF";;
+    san)  CC=clang; FLAGS="$(strip_O "$FLAGS") -O1 -g -fno-omit-frame-pointer -fsanitize=address -DTINYJAMBU_VERIF";;
     trng-getrandom)  TRNG_FLAVOR=getrandom;  TRNG_MODE=macros;;
     trng-getentropy) TRNG_FLAVOR=getentropy; TRNG_MODE=macros;;
     trng-syscall)    TRNG_FLAVOR=syscall;    TRNG_MODE=macros;;
@@ -135,7 +135,7 @@ if [ ! -x "$OUT" ]; then
            tinyjambu_hmac tinyjambu_hmac_init tinyjambu_hmac_reinit tinyjambu_hmac_free tinyjambu_hmac_update tinyjambu_hmac_finalize; do
     WRAPS="$WRAPS -Wl,--wrap=$s"
   done
-  if [ "$HARN_KIND" = asan ]; then LD="clang++ -fsanitize=address,undefined"; else LD="g++"; fi
+  if [ "$HARN_KIND" = asan ]; then LD="clang++ -fsanitize=address"; else LD="g++"; fi
   # variant name and TRNG flavor are baked in through a tiny generated object
   printf 'const char *sim_variant_name = "%s";\nconst char *sim_trng_flavor_name = "%s";\n' "$VARIANT" "$TRNG_FLAVOR" > "$T/variant.c"
   gcc -c "$T/variant.c" -o "$T/variant.o"
